@@ -14,4 +14,7 @@ def run(ctx, L, tier):
     M.size_formulas(ctx, L)      # the swap advances by the model's block alignments (PROPHY_STRUCT(N) partK, align<N>): they must be the documented ones
     from . import c20
     c20.shared_state(ctx, L)        # no state that survives from one compiled file / call to the next (module, class, closure, default argument)
+    from . import shared_gen as _G
+    _G.generators_read_only(ctx, L)
+    R.hpp_struct(ctx, L)               # the swap walks the raw structs: their gaps must be the wire gaps
     return sorted(set(o.rule for o in L.obligations))
